@@ -236,6 +236,8 @@ def replay(job, o, workroot, repo):
         cands = [["gaps"], ["roundtrip"]]
     if "ml_" in job.name:
         cands = [["mlblock"]]
+    if "K_apply_" in job.name:
+        cands = [["applyundo"]]
     if "K_fan_get_" in job.name or "K_fan_ctor" in job.name or "K_iter_eff" in job.name:
         cands = [["ranges", 4, 8, 1, 3], ["ranges", 6, 16, 2, 5], ["ranges", 3, 8, 2, 7], ["ranges", 5, 12, 0, 1]] + cands
     for c in cands:
